@@ -234,6 +234,8 @@ class Plan:
         self.os_exc2 = None
         self.os_hits = 0
         self.os_stat_hits = 0
+        self.exc2 = None
+        self.exc2_hits = 0
 
 
 PLAN = Plan()
@@ -323,6 +325,10 @@ def native_call(mod, name, args):
     PLAN.log.append(name)
     if PLAN.raise_at is not None and idx == PLAN.raise_at:
         raise PLAN.exc
+    if PLAN.raise_at is not None and idx > PLAN.raise_at and PLAN.exc2 is not None:
+        # a retried native call fails differently the second time
+        PLAN.exc2_hits += 1
+        raise PLAN.exc2
     return default_return(mod, name, args)
 
 
@@ -511,6 +517,13 @@ def strategy(tier):
             err2=st.sampled_from(ERRNOS), zombie=st.booleans(),
             cached_name=st.sampled_from([None, "cached-name"])))
         extra += [two_step_case, two_step_case]
+    if PLATFORM == "windows":
+        retry_case = st.fixed_dictionaries(dict(
+            kind=st.just("fault"), method=st.integers(0, 60), err=st.just(299),
+            then=st.sampled_from(ERRNOS + [5, 1314, 87, 6]),
+            at=st.sampled_from([0, 0, 1, 2]), zombie=st.just(False), sdead=st.just(False),
+            cached_name=st.sampled_from([None, "cached-name"]), pid=st.just(PID), pid0_listed=st.booleans()))
+        extra += [retry_case]
     return st.one_of(
         *extra,
         fault_case, fault_case, fault_case, fault_case,
@@ -570,6 +583,14 @@ def run_child_case(case):
         PLAN.pid_exists = PLAN.zombie or not nsp_class
         PLAN.raise_at = case["at"]
         PLAN.exc = make_oserror(case["err"])
+        then = case.get("then")
+        if then is not None and PLATFORM == "windows" and case["err"] == 299:
+            # Windows retries a native call that failed with
+            # ERROR_PARTIAL_COPY: the retry fails with another error, which
+            # is then the failure the method has to report
+            PLAN.exc2 = make_oserror(then)
+            if then == "ESRCH":
+                PLAN.pid_exists = False
         pid = case["pid"]
         proc = plat.Process(pid)
         proc._name = case["cached_name"]
@@ -602,6 +623,10 @@ def run_child_case(case):
             # the method made fewer native calls: the fault never fired
             return Result([f"{PLATFORM}:fault-not-reached"], None)
         err = case["err"]
+        if PLAN.exc2_hits:
+            err = then
+            PLAN.exc = PLAN.exc2
+            desc += f"; the retry after ERROR_PARTIAL_COPY failed with {then}"
         probe = {"macos": "proc_kinfo_oneshot", "bsd": "proc_oneshot_info"}.get(fam)
         if (probe is not None and PLAN.log[case["at"]] == probe and PLAN.log.count(probe) == 1
                 and len(PLAN.log) == case["at"] + 1 and case["at"] == 0
@@ -938,6 +963,21 @@ def child_main(argv):
                         stats.fail(case, v)
                         break
                     stats.record(case, res, keep_sample=False)
+        if PLATFORM == "windows":
+            # ERROR_PARTIAL_COPY first, then every other error at the retry
+            for mi in range(len(methods)):
+                for then in list(ERRNOS) + [5, 1314, 87, 6]:
+                    for at in (0, 1, 2):
+                        n += 1
+                        case = dict(kind="fault", method=mi, err=299, then=then, at=at, zombie=False, sdead=False,
+                                    cached_name=[None, "cached-name"][(n + seed) % 2], pid=PID,
+                                    pid0_listed=False, platform=PLATFORM)
+                        try:
+                            res = PROP.run_case(case)
+                        except runner.Violation as v:
+                            stats.fail(case, v)
+                            break
+                        stats.record(case, res, keep_sample=False)
         stats.notes["fault_combinations_enumerated_" + PLATFORM] = n
         with open(out, "wb") as f:
             pickle.dump(stats, f)
